@@ -229,6 +229,7 @@ func c17ExpiryCase(ctx *vkit.Ctx, cs *vkit.Case) {
 		}
 	}
 	o.ViaYAML, o.OmitDefaults = r.Chance(0.3), r.Chance(0.5)
+	o.CacheUnlimited = r.Chance(0.35) // max_cache_items: 0 = the documented "unlimited"
 	g := c17NewRig(ctx, cs, o)
 	defer g.close()
 	cm := g.cacheMetric()
